@@ -27,12 +27,14 @@ type c18Case struct {
 	I     int    `json:"i"`     // call index of the first fault
 	Kind  int    `json:"kind"`  // 0 error without effect, k>0: write torn at the k-th cut
 	Pairs bool   `json:"pairs"` // also enumerate every second fault in the re-run
+	World int    `json:"world,omitempty"` // 0: 2 files / 3 blocks (PAR1: 3 files / 2 volumes); 1 (thorough): 3 files / 7 blocks in 3 recovery files (PAR1: 4 files / 3 volumes), all 6 listing orders
 }
 
-var c18P2Cfg = scen.P2Config{Sizes: []int{11, 6}, Slice: 4, Blocks: 3, Class: "uniq"}
-var c18P1Cfg = scen.P1Config{Sizes: []int{7, 5, 3}, Volumes: 2}
+var c18P2Cfgs = []scen.P2Config{{Sizes: []int{11, 6}, Slice: 4, Blocks: 3, Class: "uniq"}, {Sizes: []int{11, 6, 9}, Slice: 4, Blocks: 7, Class: "uniq"}}
+var c18P1Cfgs = []scen.P1Config{{Sizes: []int{7, 5, 3}, Volumes: 2}, {Sizes: []int{7, 5, 3, 8}, Volumes: 3}}
 
 type c18World struct {
+	world   int
 	fmtName string
 	p2      *scen.P2Set
 	p1      *scen.P1Set
@@ -41,16 +43,16 @@ type c18World struct {
 	data    [][]byte
 }
 
-func c18NewWorld(fmtName string, seed int64) *c18World {
-	w := &c18World{fmtName: fmtName}
+func c18NewWorld(fmtName string, world int, seed int64) *c18World {
+	w := &c18World{fmtName: fmtName, world: world}
 	if fmtName == "p2" {
-		s, err := scen.GetP2(c18P2Cfg, seed)
+		s, err := scen.GetP2(c18P2Cfgs[world], seed)
 		if err != nil {
 			panic(err)
 		}
 		w.p2, w.index, w.paths, w.data = s, s.Index, s.Paths, s.Data
 	} else {
-		s, err := scen.GetP1(c18P1Cfg, seed)
+		s, err := scen.GetP1(c18P1Cfgs[world], seed)
 		if err != nil {
 			panic(err)
 		}
@@ -151,6 +153,10 @@ func (w *c18World) run(fs *envfs.FS, op string, order int, fi, kind int) c18Resu
 	fs.ResetLog()
 	fs.Order = func(m []string) []string {
 		out := append([]string{}, m...)
+		if w.world == 1 && len(out) == 3 {
+			pm := permutations(3)[order%6]
+			return []string{out[pm[0]], out[pm[1]], out[pm[2]]}
+		}
 		switch order {
 		case 1:
 			for i, j := 0, len(out)-1; i < j; i, j = i+1, j-1 {
@@ -181,7 +187,7 @@ func (w *c18World) run(fs *envfs.FS, op string, order int, fi, kind int) c18Resu
 	res.pi = core.Catch(func() {
 		switch {
 		case w.fmtName == "p2" && op == "create":
-			res.err = par2.VerifCreate(fs, w.index, w.paths, par2.CreateOptions{SliceByteCount: c18P2Cfg.Slice, NumParityShards: c18P2Cfg.Blocks, NumGoroutines: 1})
+			res.err = par2.VerifCreate(fs, w.index, w.paths, par2.CreateOptions{SliceByteCount: c18P2Cfgs[w.world].Slice, NumParityShards: c18P2Cfgs[w.world].Blocks, NumGoroutines: 1})
 		case w.fmtName == "p2" && op == "verify":
 			r, e := par2.VerifVerify(fs, w.index, par2.VerifyOptions{NumGoroutines: 1})
 			res.err, res.counts = e, fmt.Sprintf("%+v", r)
@@ -189,7 +195,7 @@ func (w *c18World) run(fs *envfs.FS, op string, order int, fi, kind int) c18Resu
 			r, e := par2.VerifRepair(fs, w.index, par2.RepairOptions{NumGoroutines: 1, DoubleCheck: op == "repairdc"})
 			res.err, res.paths = e, r.RepairedPaths
 		case op == "create":
-			res.err = par1.VerifCreate(fs, w.index, w.paths, par1.CreateOptions{NumParityFiles: c18P1Cfg.Volumes})
+			res.err = par1.VerifCreate(fs, w.index, w.paths, par1.CreateOptions{NumParityFiles: c18P1Cfgs[w.world].Volumes})
 		case op == "verify":
 			r, e := par1.VerifVerify(fs, w.index, par1.VerifyOptions{VerifyAllData: true})
 			res.err, res.counts = e, fmt.Sprintf("%+v", r)
@@ -217,27 +223,37 @@ func (w *c18World) withinCapacity(fs *envfs.FS) bool {
 
 func c18Gen(g *core.Gen) {
 	states := []string{"intact", "missing", "changed", "shifted", "beyond", "volmissing", "two"}
-	for _, f := range []string{"p2", "p1"} {
-		w := c18NewWorld(f, g.Seed)
-		for _, op := range []string{"create", "verify", "repair", "repairdc"} {
-			for _, st := range states {
-				if op == "create" && st != "intact" && st != "changed" {
-					continue
-				}
-				for order := 0; order < 3; order++ {
-					if f == "p1" && order > 0 {
-						continue // PAR1 has no directory listing
+	worlds := []int{0}
+	if g.Thorough() {
+		worlds = []int{0, 1}
+	}
+	for _, world := range worlds {
+		for _, f := range []string{"p2", "p1"} {
+			w := c18NewWorld(f, world, g.Seed)
+			for _, op := range []string{"create", "verify", "repair", "repairdc"} {
+				for _, st := range states {
+					if op == "create" && st != "intact" && st != "changed" {
+						continue
 					}
-					fs := w.initial(op, st, g.Seed)
-					base := w.run(fs, op, order, -1, 0)
-					n := len(base.log)
-					for i := 0; i < n; i++ {
-						kinds := 1
-						if base.log[i].Kind == "write" {
-							kinds = 1 + len(c18Cuts(base.log[i].Data))
+					norders := 3
+					if world == 1 {
+						norders = 6
+					}
+					for order := 0; order < norders; order++ {
+						if f == "p1" && order > 0 {
+							continue // PAR1 has no directory listing
 						}
-						for k := 0; k < kinds; k++ {
-							g.Emit(&c18Case{Fmt: f, Op: op, State: st, Order: order, I: i, Kind: k, Pairs: g.Thorough() || order == 0})
+						fs := w.initial(op, st, g.Seed)
+						base := w.run(fs, op, order, -1, 0)
+						n := len(base.log)
+						for i := 0; i < n; i++ {
+							kinds := 1
+							if base.log[i].Kind == "write" {
+								kinds = 1 + len(c18Cuts(base.log[i].Data))
+							}
+							for k := 0; k < kinds; k++ {
+								g.Emit(&c18Case{Fmt: f, Op: op, State: st, Order: order, I: i, Kind: k, Pairs: (g.Thorough() && (world == 0 || order == 0)) || order == 0, World: world})
+							}
 						}
 					}
 				}
@@ -248,7 +264,7 @@ func c18Gen(g *core.Gen) {
 
 func c18Run(ci interface{}, r *core.Rec) {
 	c := ci.(*c18Case)
-	w := c18NewWorld(c.Fmt, r.Seed)
+	w := c18NewWorld(c.Fmt, c.World, r.Seed)
 	viol := func(sig, f string, a ...interface{}) { r.Violatef(sig, f, a...) }
 
 	// never-faulted baseline
@@ -426,7 +442,7 @@ func init() {
 	core.Register(&core.Prop{
 		ID:    "C18",
 		Level: "fault_enumeration",
-		Rule: "environment enumeration on the owned filesystem: {Create, Verify, Repair, Repair+double-check} x {PAR1, PAR2} x archive state {intact, one file missing, one changed, one shifted, beyond capacity, volume missing + damage, two damaged} x listing order {sorted, reversed, rotated}; a fault at EACH I/O call index of the never-faulted run, of each kind (error without effect; for writes additionally torn at byte 0, 1, middle, len-1 and packet/field boundaries), and for each such fault EVERY second fault in the re-run (pairs), followed by a fault-free re-run. " +
+		Rule: "environment enumeration on the owned filesystem: {Create, Verify, Repair, Repair+double-check} x {PAR1, PAR2} x archive state {intact, one file missing, one changed, one shifted, beyond capacity, volume missing + damage, two damaged} x listing order {sorted, reversed, rotated}; thorough adds a larger world (3 files, 7 blocks in 3 recovery files; PAR1 4 files, 3 volumes) with all 6 listing orders; a fault at EACH I/O call index of the never-faulted run, of each kind (error without effect; for writes additionally torn at byte 0, 1, middle, len-1 and packet/field boundaries), and for each such fault EVERY second fault in the re-run (pairs), followed by a fault-free re-run. " +
 			"Oracle: a reached fault => non-nil error; a path whose write failed is not reported repaired; only write targets change; the fault-free re-run succeeds exactly like the never-faulted run and ends in the same directory whenever the reference says the (possibly torn) directory is still within capacity. non-trivial = the injected fault was reached",
 		Assumptions: []string{"faults are injected at the fileIO seam (the only I/O gopar performs)", "a torn write leaves a prefix of the data in the target file"},
 		NewCase:     func() interface{} { return &c18Case{} },
